@@ -141,6 +141,30 @@ class Exec:
             raw[pos] ^= 0x20
             s.deliver(i, data=bytes(raw), keep=True, note="corrupt")
             return True
+        if op == "ncid":
+            # ["ncid", src, k, back]: a key-holding peer re-sends the k-th NEW_CONNECTION_ID frame src has emitted so far
+            # (same sequence number, connection ID and reset token: consistent with what src issued) with
+            # retire_prior_to = max(0, seq - back); duplicates and reordering come from the script
+            from . import hostile
+            _, src, k, back = st
+            dst = other(src)
+            if src not in s.eps or dst not in s.eps or s.terminated[dst] or s.terminated[src]:
+                return False
+            if not s.eps[dst]._handshake_confirmed or not s.eps[src]._handshake_confirmed:
+                return False
+            emitter = {e["dg"]: e["ep"] for e in s.log if e["k"] == "pkt"}
+            frames = [f for dg in sorted(s.emitted) if emitter.get(dg) == src for p in s.emitted[dg]
+                      if p.get("ok") and p.get("frames") for f in p["frames"] if f["t"] == "new_connection_id"]
+            if not frames:
+                return False
+            f = frames[k % len(frames)]
+            rpt = max(0, f["seq"] - back)
+            payload = hostile.f_new_cid(f["seq"], rpt, bytes(f["cid"]), bytes(f["srt"]))
+            ok = hostile.inject(s, src, "1rtt", payload, "ncid")
+            if ok:
+                inj = next(e for e in reversed(s.log) if e["k"] == "inject")
+                inj["frames"] = [{"t": "new_connection_id", "seq": f["seq"], "rpt": rpt, "cid": s.cid(f["cid"])}]
+            return ok
         if op == "blackout":
             return s.blackout()
         if op == "rebind":
@@ -237,6 +261,8 @@ def random_script(rnd, n_steps, profile, streams=None, sizes=None):
             out.append(["blackout"])
         elif k == "corrupt":
             out.append(["corrupt", rnd.randrange(8), rnd.choice([30, 60, 200, 700, 1150])])
+        elif k == "ncid":
+            out.append(["ncid", rnd.choice("cs"), rnd.randrange(16), rnd.choice([0, 0, 1, 2, 5])])
         elif k == "spoof":
             out.append(["spoof", rnd.randrange(8), rnd.randrange(3)])
     return out
@@ -249,6 +275,8 @@ PROFILES = {
     "flow": {"write": 7, "deliver": 8, "drop": 1.5, "dup": 0.5, "timer": 3, "tick": 1, "reset": 0.4, "stop": 0.2},
     "closing": {"write": 4, "deliver": 6, "drop": 1, "dup": 0.5, "timer": 2, "late": 0.7, "tick": 1, "ping": 0.5,
                 "close": 0.8, "reset": 0.3, "keyupdate": 0.3, "rebind": 0.2, "corrupt": 0.5},
+    "cids": {"write": 3, "deliver": 8, "drop": 1.5, "dup": 0.7, "swap": 1, "timer": 2, "changecid": 2.5, "ncid": 3,
+             "rebind": 0.5, "keyupdate": 0.3},
     "amplify": {"write": 5, "deliver": 6, "drop": 2, "dup": 1, "timer": 3, "spoof": 2, "rebind": 1.5, "corrupt": 0.5, "changecid": 0.5},
     "ptoclose": {"write": 3, "drop": 5, "timer": 4, "deliver": 1, "close": 0.6, "corrupt": 0.3},
     "blackout": {"write": 4, "deliver": 6, "drop": 1, "timer": 2, "tick": 1, "blackout": 0.5},
